@@ -6,8 +6,10 @@ sys.path.insert(0, str(V)); sys.path.insert(0, "/repo")
 ids = [json.loads(l)["id"] for l in open(V / "properties.jsonl")]
 reasons = json.loads((V / "tools" / "not_claimed.json").read_text()) if (V / "tools" / "not_claimed.json").exists() else {}
 checks = []; na = []
+import subprocess
+tracked = set(subprocess.run(["git", "ls-files", "props"], cwd=V, capture_output=True, text=True).stdout.split())
 for pid in ids:
-    if (V / "props" / f"{pid}.py").exists():
+    if f"props/{pid}.py" in tracked:
         m = importlib.import_module(f"props.{pid}")
         checks.append(dict(
             property_id=pid,
